@@ -115,7 +115,18 @@ def rand_history(rng, cfg, n, conc):
         for _ in range(min(k + 1, NTXN // 2)):
             h.append({"ev": "req", "t": "t%d" % nxt, "flow": f, "early": False})
             nxt += 1
-        h.append({"ev": "adv", "d": max(cfg["Expiry"][x] + cfg["GcPeriod"][x] for x in chain(cfg, q)) + rng.choice([0, 1])})
+        far = max(cfg["Expiry"][x] + cfg["GcPeriod"][x] for x in chain(cfg, q)) + rng.choice([0, 1])
+        if rng.random() < 0.5:
+            h.append({"ev": "adv", "d": far})
+        else:
+            # stop somewhere between expiry and the last GC pass, end some of the abandoned transactions late, go on
+            d1 = rng.randint(1, far)
+            h.append({"ev": "adv", "d": d1})
+            for i in range(nxt):
+                if rng.random() < 0.6:
+                    h.append({"ev": rng.choice(["err", "resp"]), "t": "t%d" % i})
+            if rng.random() < 0.5 and far > d1:
+                h.append({"ev": "adv", "d": far - d1})
         for _ in range(min(k + 1, NTXN - nxt)):
             h.append({"ev": "req", "t": "t%d" % nxt, "flow": f, "early": False})
             live.append("t%d" % nxt)
@@ -313,7 +324,7 @@ def run(ctx):
                        "period, concurrent batches of requests / responses / errors + TLC -simulate walks of ConcurrencyP; a history is "
                        "non-trivial when a request is refused (quota exhausted) and a later request is admitted (a slot was given back); "
                        "distinct by (config, events)")
-    ctx.cov["checker_cmd"] = "tlc -config MC_small.cfg MC_C02.tla ; tlc -config ConcurrencyTrace.cfg ConcurrencyTrace.tla"
+    ctx.cov["checker_cmd"] = "tlc -config MC_small.cfg MC_C02.tla ; tlc -config MC_mid.cfg MC_C02.tla ; tlc -config ConcurrencyTrace.cfg ConcurrencyTrace.tla"
     ctx.cov["trusted_base"] = ["TLC 1.8", "CommunityModules Json", "Go toolchain", "clock.MockClock (+PendingTimers)",
                                "harness/cmd/c02 projection (no early-return action = admit, 429 = refuse, 200 = answered early)",
                                "hook cq.gc.done as the completion signal of a background GC pass"]
@@ -323,9 +334,10 @@ def run(ctx):
                         "single gateway instance (no cluster liveness), in-memory shared state"]
 
     n = 90 if not T else 300
-    jobs = [("ex", "MC_C02", "MC_small.cfg" if not T else "MC_large.cfg", "all interleavings: Bounded, NoLeak, Quiescent, ExpiryBound, OnceOnly")]
+    jobs = [("ex", "MC_C02", "MC_small.cfg", "2 transactions, Max 1, expiry + GC: Bounded, NoLeak, Quiescent, ExpiryBound, OnceOnly"),
+            ("ex", "MC_C02", "MC_mid.cfg", "3 transactions, Max 2, requests || releases")]
     if T:
-        jobs.append(("ex", "MC_C02", "MC_small.cfg", "2 transactions, Max 1"))
+        jobs.append(("ex", "MC_C02", "MC_large.cfg", "3 transactions, Max 2, expiry + GC"))
         jobs.append(("nv", "MC_C02", variant_cfg(sd, "MC_large.cfg", "alias_gc", 3), "alias_gc"))
     jobs += [("nv", "MC_C02", variant_cfg(sd, "MC_small.cfg", v, mx), v) for v, mx in (VARIANTS if T else VARIANTS[:3])]
     jobs.append(("gen", "GenC02", "GenC02.cfg", "behaviour generation"))
